@@ -615,6 +615,10 @@ def gen_exact(rng):
             ops.append(f"rpbcmol {dt} {enc_arr(a)} {enc_box(boxarg)} {';'.join(','.join(str(i) for i in mm) for mm in mols)} "
                        + "".join(str(x) for x in sel))
         ops.append(f"rpbcmol {dt} {enc_arr(a)} {enc_box(boxarg)} {';'.join(','.join(str(i) for i in mm) for mm in mols)}")
+    elif r < 0.965:
+        kind = "dihedral"
+        for _ in range(rng.choice([1, 2, 3])):
+            ops.append(f"dihclass {dt} {enc_arr(_dih_quad(rng))}")
     else:
         kind = "box"
         boxarg = rng.choice([_box_for(rng, "f64")[0], _stack_boxes(rng, "f64", 2), _singular_box(rng)])
@@ -645,6 +649,55 @@ def _layout(rng, sizes, mode):
             out.append((m, left[m]))
             left[m] += 1
     return [(m, j) for m in range(len(sizes)) for j in range(sizes[m])]
+
+
+def _dih_quad(rng):
+    """four atoms whose dihedral class is decided by exact arithmetic: exactly planar trans / cis quadruples lying in a
+    coordinate plane (idealised / 2D-sketched geometry: zig-zag chains, rings), or clearly non-planar grid points"""
+    mode = rng.choice(["planar-trans", "planar-trans", "planar-cis", "planar-any", "generic", "generic"])
+    for _ in range(200):
+        if mode == "generic":
+            q = [[Fr(rng.randint(-40, 40), rng.choice([1, 2, 4, 8])) for _ in range(3)] for _ in range(4)]
+        else:
+            const_axis = rng.randrange(3)
+            cval = Fr(rng.randint(-80, 80), 8)
+            u = [[Fr(rng.randint(-24, 24), rng.choice([1, 1, 2, 8])) for _ in range(2)] for _ in range(4)]
+            if mode != "planar-any":
+                # zig-zag (trans) or U-shape (cis): atoms 1 and 4 on opposite / the same side of the bond 2-3
+                b2 = [u[2][0] - u[1][0], u[2][1] - u[1][1]]
+                perp = [-b2[1], b2[0]]
+                k1, k4 = Fr(rng.randint(1, 6), 2), Fr(rng.randint(1, 6), 2)
+                t1, t4 = Fr(rng.randint(-3, 3), 2), Fr(rng.randint(-3, 3), 2)
+                sgn = -1 if mode == "planar-trans" else 1
+                u[0] = [u[1][0] + k1 * perp[0] + t1 * b2[0], u[1][1] + k1 * perp[1] + t1 * b2[1]]
+                u[3] = [u[2][0] + sgn * k4 * perp[0] + t4 * b2[0], u[2][1] + sgn * k4 * perp[1] + t4 * b2[1]]
+            q = []
+            for p_ in u:
+                v_ = list(p_)
+                v_.insert(const_axis, cval)
+                q.append(v_)
+        if max(abs(x) for p_ in q for x in p_) > 200:
+            continue
+        b1, b2, b3 = _subF(q[1], q[0]), _subF(q[2], q[1]), _subF(q[3], q[2])
+        n1, n2 = _crossF(b1, b2), _crossF(b2, b3)
+        if _dotF(n1, n1) == 0 or _dotF(n2, n2) == 0:
+            continue                                   # collinear: the dihedral is not defined
+        y = _dotF(_crossF(n1, n2), b2)
+        if mode == "generic":
+            # clearly non-planar: |sin| of the dihedral above 0.1, so that the float sign is beyond doubt
+            sin2 = Fr(y * y) / (_dotF(n1, n1) * _dotF(n2, n2) * _dotF(b2, b2))
+            if sin2 < Fr(1, 100):
+                continue
+        return q
+    return [[Fr(0), Fr(0), Fr(0)], [Fr(1), Fr(1), Fr(0)], [Fr(2), Fr(0), Fr(0)], [Fr(3), Fr(1), Fr(0)]]
+
+
+def _dih_class(ang):
+    if abs(ang) < 1e-6:
+        return "0"
+    if abs(abs(ang) - math.pi) < 1e-6:
+        return "pi"
+    return "+" if ang > 0 else "-"
 
 
 def _singular_box(rng):
@@ -838,6 +891,13 @@ def _run_op(np, struc, w):
         r = struc.box_volume(_npbox(np, dec_box(w[1]), "float64"))
         # LU-based determinant of small dyadic matrices: exact up to the final products; snap to the 1/64 grid
         return "ok " + out_scal(r, lambda c: Fr(round(Fr(float(c)) * 4096), 4096))
+    if name == "dihclass":
+        q = np_arr(dec_arr(w[2]), DT[w[1]])
+        ang = float(struc.dihedral(q[0], q[1], q[2], q[3]))
+        at = _mk_atoms(np, struc, q, None)
+        ang2 = float(struc.index_dihedral(at, np.array([[0, 1, 2, 3]]))[0])
+        c1, c2 = _dih_class(ang), _dih_class(ang2)
+        return "ok " + (c1 if c1 == c2 else f"{c1}/{c2}")
     if name == "ucell90":
         import math
         lens = [float(Fr(x)) for x in w[1:4]]
@@ -936,9 +996,13 @@ def gen_float(rng):
     r = rng.random()
     dt = rng.choice(["f32", "f32", "f64"])
     seed = rng.getrandbits(48)
+    if r < 0.012:
+        return {"kind": "f-alias", "seed": seed}
     if r < 0.02:
+        return {"kind": "f-collinear", "seed": seed}
+    if r < 0.03:
         return {"kind": "f-state", "seed": seed}
-    if r < 0.04:
+    if r < 0.045:
         return {"kind": "f-refuse", "seed": seed}
     if r < 0.07:
         return {"kind": "f-spell", "seed": seed}
@@ -970,6 +1034,16 @@ def gen_float(rng):
         m = rng.choice([0, 0, 2, 3])          # 0: no model axis
         shape = (m, n) if m else (n,)
         pts = [_farr(rng, shape, lim) for _ in range(4)]
+        if rng.random() < 0.25:
+            # exactly planar quadruples (idealised / sketched coordinates): every atom in one coordinate plane, grid values
+            ax_ = rng.randrange(3)
+            cv = float(rng.randint(-40, 40)) / 4
+
+            def flat(v_):
+                out = [float(round(x * 2)) / 2 for x in v_]
+                out[ax_] = cv
+                return out
+            pts = [_fmap2(p_, flat) for p_ in pts]
         return {"kind": "f-geom", "dt": dt, "pts": pts, "quat": [[str(x) for x in row] for row in _quat_rotation(rng)],
                 "trans": [rng.randint(-400, 400) / 8 for _ in range(3)],
                 "motion": rng.choice(["quat", "quat", "rotate", "rotate_centered", "rotate_about_axis", "align_vectors", "translate"]),
@@ -1254,6 +1328,8 @@ def _ref_dihedral(a, b, c, d):
     n1, n2 = _crossF(b1, b2), _crossF(b2, b3)
     y = _norm(b2) * float(_dotF(b1, n2))
     x = float(_dotF(n1, n2))
+    if min(_norm(b1), _norm(b2), _norm(b3)) == 0:
+        return float("nan"), (0.0, 0.0)          # coinciding atoms: not defined
     return math.atan2(y, x), (_norm(n1) / (_norm(b1) * _norm(b2)), _norm(n2) / (_norm(b2) * _norm(b3)))
 
 
@@ -1316,7 +1392,7 @@ def oracle(case):
         warnings.simplefilter("ignore")
         k = case.get("kind", "")
         if k.startswith("f-"):
-            return {"f-geom": _o_geom, "f-state": _o_state, "f-refuse": _o_refuse, "f-spell": _o_spell, "f-misc": _o_misc, "f-seq": _o_seq, "f-index": _o_index, "f-pmeasure": _o_pmeasure, "f-transform": _o_transform, "f-pbc": _o_pbc, "f-move": _o_move, "f-unitcell": _o_unitcell, "f-rpbc": _o_rpbc}[k](case)
+            return {"f-geom": _o_geom, "f-alias": _o_alias, "f-collinear": _o_collinear, "f-state": _o_state, "f-refuse": _o_refuse, "f-spell": _o_spell, "f-misc": _o_misc, "f-seq": _o_seq, "f-index": _o_index, "f-pmeasure": _o_pmeasure, "f-transform": _o_transform, "f-pbc": _o_pbc, "f-move": _o_move, "f-unitcell": _o_unitcell, "f-rpbc": _o_rpbc}[k](case)
         return _o_exact(case)
 
 
@@ -1429,6 +1505,19 @@ def _o_exact(case):
                     bx = _box_exact(b if b.ndim == 2 else b[mi])
                     v += _check_rpbc(_exact(ra[mi]), _exact(rr[mi]), bx, [(i, i + 1) for i in range(len(ra[mi]) - 1)], 0.0, f"op `{op}`",
                                      array_adjacent=True)
+            elif w[0] == "dihclass":
+                q = dec_arr(w[2])
+                b1, b2, b3 = _subF(q[1], q[0]), _subF(q[2], q[1]), _subF(q[3], q[2])
+                n1, n2 = _crossF(b1, b2), _crossF(b2, b3)
+                # textbook (IUPAC): atan2(|b2| b1.(b2 x b3), (b1 x b2).(b2 x b3)) -- here only what exact arithmetic decides
+                ty, tx = _dotF(b1, n2), _dotF(n1, n2)
+                want = ("0" if tx > 0 else "pi") if ty == 0 else ("+" if ty > 0 else "-")
+                qa = np_arr(q, DT[w[1]])
+                got = _dih_class(float(struc.dihedral(qa[0], qa[1], qa[2], qa[3])))
+                if got != want:
+                    names = {"0": "0 (planar cis)", "pi": "180 degrees (planar trans)", "+": "positive", "-": "negative"}
+                    key = {"pi": "planar-trans-is-not-180-degrees", "0": "planar-cis-is-not-0"}.get(want, "wrong-sign")
+                    v.append((f"C15/dihedral/{key}", f"op `{op}`: dihedral() gives {names[got]}, the textbook value is {names[want]}"))
             elif w[0] == "rpbcmol":
                 a, b = np_arr(dec_arr(w[2]), "float32"), _npbox(np, dec_box(w[3]), "float32")
                 mols = [[int(i) for i in mm.split(",")] for mm in w[4].split(";")]
@@ -1606,7 +1695,9 @@ def _o_geom(case):
             cref = _ref_angle_cos(a, b, c)
             got = float(np.asarray(ang).reshape(-1)[i])
             tol_c = 16 * eps * (1 + M / l1 + M / l2_)
-            if not (abs(math.cos(got) - cref) <= tol_c and 0 <= got <= math.pi):
+            if math.isnan(got) and abs(abs(cref) - 1) < 1e-6:
+                v.append(("C15/angle/nan-for-collinear-atoms", f"angle is NaN for collinear atoms {a} {b} {c}"))
+            elif not (abs(math.cos(got) - cref) <= tol_c and 0 <= got <= math.pi + 4 * eps):      # float32(pi) > pi
                 v.append(("C15/angle/differs-from-textbook", f"angle {got!r} (cos {math.cos(got)!r}), textbook cos = {cref!r} (tol {tol_c:.3g})"))
         l3 = _norm(_subF(d, c))
         href, (s1, s2) = _ref_dihedral(a, b, c, d)
@@ -1908,6 +1999,100 @@ def _o_state(case):
                 return [(f"C15/{name.split('(')[0]}/reused-object-differs-from-fresh-object",
                          f"{'stack' if stack else 'array'}, history {' -> '.join(history)}: {name} on the reused object differs from a fresh object of equal content")]
     return []
+
+
+def _o_collinear(case):
+    """exactly collinear atoms (linear molecules on idealised coordinates): the angle is 0 or 180 degrees, never NaN"""
+    import random as _random
+
+    import numpy as np
+
+    import biotite.structure as struc
+    r = _random.Random(case["seed"])
+    v = []
+    for _ in range(40):
+        a = np.array([r.randint(-40, 40) / r.choice([1, 2, 4]) for _ in range(3)], dtype=np.float32)
+        d = np.array([r.randint(-6, 6) for _ in range(3)], dtype=np.float32)
+        if not d.any():
+            continue
+        k1, k2 = r.randint(1, 5), r.randint(1, 5)
+        for label, p1, p3, want in (("180", a - k1 * d, a + k2 * d, math.pi), ("0", a + k1 * d, a + k2 * d, 0.0)):
+            got = float(struc.angle(p1, a, p3))
+            if math.isnan(got):
+                v.append(("C15/angle/nan-for-collinear-atoms", f"angle({p1.tolist()}, {a.tolist()}, {p3.tolist()}) is NaN, the atoms lie on one line ({label} degrees)"))
+            elif abs(got - want) > 1e-3:
+                v.append(("C15/angle/differs-from-textbook", f"angle({p1.tolist()}, {a.tolist()}, {p3.tolist()}) = {got!r}, collinear atoms: {label} degrees"))
+            at = _mk_atoms(np, struc, np.stack([p1, a, p3]), None)
+            got2 = float(struc.index_angle(at, np.array([[0, 1, 2]]))[0])
+            if not (got2 == got or (math.isnan(got) and math.isnan(got2))):
+                v.append(("C15/index_angle/differs-from-coordinate-variant", f"{got2!r} vs {got!r}"))
+        if len(v) > 3:
+            break
+    return v
+
+
+def _o_alias(case):
+    """Objects a function returns share no mutable state with its arguments: editing the result in place (the usual
+    `supercell.box *= 3`, `moved.coord += ...`) leaves the input untouched and vice versa."""
+    import random as _random
+
+    import numpy as np
+
+    import biotite.structure as struc
+    r = _random.Random(case["seed"])
+    stack = r.random() < 0.4
+    coord, box, bonds = _rand_system(r, stack=stack)
+    n = coord.shape[-2]
+    idx = np.array([[i, (i + 1) % n] for i in range(n)])
+    makers = [
+        ("repeat_box", lambda a: struc.repeat_box(a, r.choice([1, 1, 0]))[0]),
+        ("remove_pbc", lambda a: struc.remove_pbc(a)),
+        ("translate", lambda a: struc.translate(a, [1.0, 2.0, 3.0])),
+        ("rotate", lambda a: struc.rotate(a, [0.3, 0.2, 0.1])),
+        ("rotate_centered", lambda a: struc.rotate_centered(a, [0.3, 0.2, 0.1])),
+        ("rotate_about_axis", lambda a: struc.rotate_about_axis(a, [1, 2, 3], 0.5)),
+        ("align_vectors", lambda a: struc.align_vectors(a, [1, 0, 0], [0, 1, 1])),
+    ]
+    if not stack:
+        makers.append(("orient_principal_components", lambda a: struc.orient_principal_components(a)))
+    reads = [("index_distance(periodic)", lambda a: struc.index_distance(a, idx, periodic=True)),
+             ("move_inside_box", lambda a: struc.move_inside_box(a.coord, a.box)),
+             ("remove_pbc", lambda a: struc.remove_pbc(a).coord)]
+    v = []
+    for name, make in r.sample(makers, 3):
+        atoms = _atoms_with(np, struc, coord.copy(), box.copy(), bonds)
+        atoms.set_annotation("charge", np.arange(n))
+        with np.errstate(all="ignore"):
+            out = make(atoms)
+        pairs = [("coord", out.coord, atoms.coord), ("box", out.box, atoms.box), ("charge", out.charge, atoms.charge)]
+        shared = [lab for lab, x, y in pairs if x is not None and y is not None and np.shares_memory(x, y)]
+        if shared:
+            v.append((f"C15/{name}/result-shares-{shared[0]}-with-its-argument", f"{'stack' if stack else 'array'}: np.shares_memory(result.{shared[0]}, atoms.{shared[0]})"))
+            continue
+        # behaviour: edit one side in place, the other side must read as before
+        for side in ("result", "argument"):
+            a2 = _atoms_with(np, struc, coord.copy(), box.copy(), bonds)
+            with np.errstate(all="ignore"):
+                o2 = make(a2)
+                rname, read = r.choice(reads)
+                edited, other = (o2, a2) if side == "result" else (a2, o2)
+                if other.array_length() != n:
+                    rname, read = "move_inside_box", reads[1][1]
+                before = np.asarray(read(other))
+                snap = (other.coord.copy(), other.box.copy())
+                edited.box *= np.float32(3)
+                edited.coord += np.float32(7)
+                if edited.bonds is not None and edited.bonds.get_bond_count():
+                    b0 = edited.bonds.as_array()[0]
+                    edited.bonds.remove_bond(int(b0[0]), int(b0[1]))
+                after = np.asarray(read(other))
+            if not (np.array_equal(other.coord, snap[0]) and np.array_equal(other.box, snap[1])) or not _same(np, before, after):
+                what = "box" if not np.array_equal(other.box, snap[1]) else "coord" if not np.array_equal(other.coord, snap[0]) else "bonds"
+                v.append((f"C15/{name}/in-place-edit-of-the-{side}-changes-the-other-object",
+                          f"{'stack' if stack else 'array'}: after `{side}.box *= 3; {side}.coord += 7` the {what} of the "
+                          f"{'argument' if side == 'result' else 'result'} changed ({rname} reads differently)"))
+                break
+    return v
 
 
 def _o_refuse(case):
@@ -2214,6 +2399,8 @@ def _o_misc(case):
     missing = r.choice([None, None, "N", "CA", "C"]) if nres > 2 else None
     miss_res = r.randrange(1, nres - 1) if missing else None
     hetero_before = r.random() < 0.3
+    zz, zpos = [1], [float(r.randint(-10, 10)), float(r.randint(-10, 10))]
+    planar_bb = r.random() < 0.3          # an idealised, exactly planar backbone (all z equal): dihedrals are 0 or 180 degrees
     if hetero_before:
         names.append("O"); resid.append(0); resn.append("HOH"); chain.append("A"); coords.append(pos + 3.0)
     for i in range(nres):
@@ -2224,6 +2411,14 @@ def _o_misc(case):
         for nm in ("N", "CA", "C"):
             pos = pos + np.array(_unit(r)) * r.uniform(1.3, 1.6)
             place[nm] = pos.copy()
+        if planar_bb:
+            # a zig-zag in the plane z = 3 on a half-integer grid; never three atoms in a row on one line
+            for nm in ("N", "CA", "C"):
+                step_y = -zz[-1] if (len(zz) >= 2 and zz[-1] == zz[-2]) or r.random() < 0.75 else zz[-1]
+                zz.append(step_y)
+                zpos[0] += r.choice([1.0, 1.5]); zpos[1] += step_y * r.choice([1.0, 1.5])
+                place[nm] = np.array([zpos[0], zpos[1], 3.0])
+            pos = place["C"].copy()
         place["O"] = place["C"] + np.array(_unit(r)) * 1.2
         place["CB"] = place["CA"] + np.array(_unit(r)) * 1.5
         for nm, _ in atoms_here:
@@ -2268,16 +2463,13 @@ def _o_misc(case):
                     if not math.isnan(got):
                         v.append((f"C15/dihedral_backbone/{label}-defined-although-an-atom-is-missing", f"residue {i}: {got!r}"))
                     continue
-                want = float(struc.dihedral(*pts))
-                if math.isnan(got) or _angdiff(got, want) > 1e-4:
+                want, (s1_, s2_) = _ref_dihedral(*[[float(x) for x in p_] for p_ in pts])
+                if math.isnan(want) or min(s1_, s2_) < 0.15:
+                    continue                    # coinciding / nearly collinear atoms: the dihedral is ill-conditioned
+                if math.isnan(got) or _angdiff(got, want) > 2e-5 / min(s1_, s2_) ** 2 + 1e-5:
                     v.append((f"C15/dihedral_backbone/{label}-differs-from-dihedral-of-the-backbone-atoms", f"model {m}, residue {i}: {got!r} vs {want!r}"))
         if len(v) > 4:
             break
-    if stack and not v:
-        # the second model is a rigid motion of the first
-        ok = np.isfinite(phi[0])
-        if float(np.nanmax(np.abs(np.angle(np.exp(1j * (phi[0][ok] - phi[1][ok])))), initial=0.0)) > 2e-2:
-            v.append(("C15/dihedral_backbone/not-invariant-under-rigid-motion", f"{phi[0].tolist()} vs {phi[1].tolist()}"))
     return v
 
 
